@@ -1278,9 +1278,26 @@ def shrink(prog, still_fails, budget=400):
 
 FRAGMENT_NOTE = ('Lean theorems (Props/%s.lean) are about: bind/read/seq/if/while(test,else)/for(targets,else)/'
                  'try(handlers,else,finally)/def/lambda/class as statements of one scope body')
-OUTSIDE_THEOREM = ['comprehensions (Den + correspondence + CPython oracle only; no Exec rule)',
+OUTSIDE_THEOREM = ['comprehensions: inside the C02 theorem fragment when iterables / conditions / element are read-only and the read '
+                   'is not a late one (Witness/C02.lean); outside the C01_visible and C03 fragments (Den + correspondence + '
+                   'CPython oracle only)',
                    "bindings of names declared 'global' (gbind)",
                    'nested scope bodies relative to their enclosing activation (each scope body is its own program)']
+
+
+# full statements kept as `def …_stmt : Prop` without a proof (NOT counted as obligations: only `theorem`s are)
+STATED_NOT_PROVED = {'C01': [], 'C02': [], 'C03': []}
+THEOREM_HYPOTHESES = {
+    'C01': ['C01_visible: wf s (handler chains only inside try, for-targets are bindings, no binding of a name declared '
+            "global), r is a read of this scope body; jumps and raise points anywhere; comprehensions have no execution "
+            'rule (reads inside them are covered by the oracle only)'],
+    'C02': ['C02_sound: inC02 s, r is a read of this scope body, lateRead s r x = false (r does not lie, inside a comprehension, '
+            'before a deeper generator level that binds x); per name x'],
+    'C03': ['C03_precise / C03_exact / C03_possibly_undefined / C03_undefined: inC03 s (try bodies with handlers may raise '
+            'at both ends), r is a read of this scope body, x is not an except-clause name of s (those are deleted when '
+            'the handler is left, which supp does not model); C03_exact: a non-empty set S of entry states described '
+            'exactly by the entry table for x'],
+}
 
 
 def analyse(prog, hints):
@@ -1576,6 +1593,8 @@ def run_property(check, prop):
         'sem_vs_cpython_runs_compared': sem_cmp, 'sem_vs_cpython_disagreements': sem_bad,
         'c03_reads_outside_domain_skipped': skipped_c03,
         'constructs_outside_theorem_fragment': OUTSIDE_THEOREM, 'theorem_fragment': FRAGMENT_NOTE % prop,
+        'stated_not_proved': STATED_NOT_PROVED.get(prop, []),
+        'theorem_hypotheses': THEOREM_HYPOTHESES.get(prop, []),
     })
     for prog, hints, level, stats in progs[:3]:
         check.sample({'level': level, 'source': render(prog, hints)[0][:600]})
